@@ -171,6 +171,34 @@ func c28Grammar(rng *rand.Rand, n int, _ []string) {
 			}
 			sx.Case("c28.collide", sx.List(kind, sx.Str(a), sx.Str(b)), sx.Bool(sameID))
 		}
+		// terminals with an explicit ID clause, name (ID): the clause takes the place of the derived identifier
+		// for the collision check, whichever of the two terminals comes first
+		xs := []string{ident.Produce(a, ident.UpperCase), ident.Produce(b, ident.UpperCase), "XID", strings.ToUpper(strings.NewReplacer("-", "_").Replace(a))}
+		x := xs[rng.Intn(len(xs))]
+		if !validID(x) || strings.ContainsAny(x, "-") {
+			continue
+		}
+		for _, kind := range []string{"xterm1", "xterm2", "xterm3"} {
+			decl := func(name string, explicit bool, re string) string {
+				if explicit {
+					return fmt.Sprintf("%s (%s): /%s/\n", name, x, re)
+				}
+				return fmt.Sprintf("%s: /%s/\n", name, re)
+			}
+			text := "language l(go);\n::lexer\n" + decl(a, kind != "xterm1", "x") + decl(b, kind != "xterm2", "y") + fmt.Sprintf("::parser\ninput : %s | %s ;\n", a, b)
+			_, err := compiler.Compile(context.Background(), "g.tm", text, compiler.Params{CheckOnly: true})
+			sameID, other := false, ""
+			if err != nil {
+				sameID = strings.Contains(err.Error(), "get the same ID in generated code")
+				if !sameID {
+					other = err.Error()
+				}
+			}
+			if other != "" {
+				continue
+			}
+			sx.Case("c28.collide", sx.List(kind, sx.Str(a), sx.Str(b), sx.Str(x)), sx.Bool(sameID))
+		}
 	}
 }
 
